@@ -65,6 +65,8 @@ func bookRun(args []string) error {
 	useCache := fs.Bool("cache", false, "use the cache file")
 	recreate := fs.Bool("recreate", false, "recreate the cache file")
 	rounds := fs.Int("rounds", 1, "initialisations in a row (a new Book each)")
+	reuse := fs.Bool("reuse", false, "one Book object for all rounds, Reset() in between")
+	damage := fs.String("damage-before-last", "", "file whose content replaces the cache file before the last round (the cache is damaged while the program runs)")
 	procs := fs.Int("maxprocs", 0, "GOMAXPROCS (0 = default)")
 	sched := fs.String("schedule", "", "json file with a forced interleaving: list of [parentKey, childKey] pairs in the order in which addToBook calls must happen")
 	outF := fs.String("out", "", "dump json")
@@ -113,8 +115,22 @@ func bookRun(args []string) error {
 	// book build would otherwise race for - a race the engine itself cannot have
 	_ = position.NewPosition()
 	_ = movegen.NewMoveGen()
+	var same *openingbook.Book
 	for r := 0; r < *rounds; r++ {
 		b := openingbook.NewBook()
+		if *reuse { // one Book object for all rounds, Reset() in between (as a long-running program re-reading its book does)
+			if same == nil {
+				same = b
+			} else {
+				same.Reset()
+			}
+			b = same
+		}
+		if *damage != "" && r == *rounds-1 && r > 0 {
+			if data, derr := os.ReadFile(*damage); derr == nil {
+				os.WriteFile(*fileF+".cache", data, 0o644)
+			}
+		}
 		err := b.Initialize(filepath.Dir(*fileF), filepath.Base(*fileF), bf, *useCache, *recreate)
 		if err != nil {
 			errs = append(errs, err.Error())
